@@ -81,6 +81,7 @@ def simulate(case, draw, after_op, on_exception=None, shadow=True):
     wcfg = case["world"]
     kw = dict(cache_impl=wcfg["cache_impl"], maxsize=wcfg["maxsize"], lapack=True)
     w = core.World(case["seed"], fc=wcfg.get("fc", {}), **kw) if draw else core.World(case["seed"], plan=case.get("inner", {}), **kw)
+    w.prop = case["property"]
     ts = case["tasks"][0]
     task = e1.task_from_spec(ts)
     progs = {r["id"]: r for r in ts["program"]}
